@@ -336,6 +336,29 @@ func checkC04(p *Program, r *Report) {
 	}
 	r.Floor("R04.1", "vectorised wrappers", n, 41)
 	checkNoAppendOnShared(p, r, models)
+	// R04.7: Run touches nothing else — no package-level writes from anything a Run reaches
+	{
+		r.Rule("R04.7", "Run touches nothing else: no function reachable from any wrapper's Run writes a package-level variable (cells would read each other's intermediate values)")
+		var roots []*ssa.Function
+		for _, m := range models {
+			if m.Run != nil {
+				roots = append(roots, m.Run)
+			}
+		}
+		ws := globalWritesFrom(p, roots)
+		seenW := map[string]bool{}
+		for _, w := range ws {
+			k := FuncKey(w.fn) + ":writes:" + w.g.Name()
+			if seenW[k] {
+				continue
+			}
+			seenW[k] = true
+			r.Fail("R04.7", k, p.Pos(w.site.Pos()), fmt.Sprintf("package-level variable %s is written by %s during Run: a cell's result depends on what other cells (or earlier runs) left there", w.g.Name(), FuncKey(w.fn)))
+		}
+		if len(ws) == 0 {
+			r.OK("R04.7", fmt.Sprintf("%d Run methods: no reachable write to a package-level variable", len(roots)))
+		}
+	}
 	r.Floor("R04.2", "write obligations discharged", r.PerRule["R04.2"][0], 20)
 	r.Floor("R04.3", "broadcast obligations discharged", r.PerRule["R04.3"][0], 41)
 	r.Floor("R04.4", "table-parameter obligations", r.PerRule["R04.4"][0], 7)
